@@ -72,6 +72,7 @@ def pipeline(root):
             a, b = n.args[1], n.args[2]
             in_a = any(m is b for m in vg.walk(a))
             in_b = any(m is a for m in vg.walk(b))
+            phi_ = n
             if in_a and not in_b:
                 skip, n = b, a
             elif in_b and not in_a:
@@ -81,7 +82,7 @@ def pipeline(root):
                 out.append(("bad-skip", n, {"why": f"when the stage is disabled the value is {vg.show(b, 2)}, which is not the tensor the enabled stage filters"}))
                 n = a if stage_of(a) is not None else b
                 continue
-            out.append(("optional", n0_show(n), skip))
+            out.append(("optional", n0_show(phi_), skip, phi_, n))
             continue
         st = stage_of(n)
         if st is None:
@@ -237,6 +238,56 @@ def run(ctx: Ctx):
            "every optional stage (tanh / mask / top-k / top-p) is applied to the previous stage's result and skipping it yields exactly that result" if not badskip else
            "an optional stage is not chained on the previous stage's result (a filter is applied to a stale tensor, or the disabled path returns a different tensor): " + str(badskip[0][2].get("why", "")),
            construct="process_logits:stage-chaining")
+    # each optional stage is switched on by its own setting, as documented ("If 0, do not perform"): the enabled alternative is taken
+    # iff `<setting> > 0` (tanh clip, top-k, top-p) or iff the flag is true (mask), the setting being a parameter the stage itself uses
+    n_opt = 0
+    for p_ in pipe:
+        if p_[0] != "optional":
+            continue
+        phi_, enabled = p_[3], p_[4]
+        cond = phi_.args[0]
+        first = enabled is phi_.args[1]
+        used = vg.params_of(enabled) - vg.params_of(p_[2])
+        okc, whyc = False, f"condition {vg.show(cond, 3)}"
+        c0 = nf.strip(cond, True) if isinstance(cond, vg.S) else None
+        if c0 is not None and c0.op == "param":
+            okc = first
+            whyc = f"flag `{c0.args[0]}` enables the stage: {okc}"
+        elif isinstance(cond, vg.S) and cond.op == "or" and not first:
+            # a helper's own early return `if s <= 0 or s >= 1: return logits`: enabled iff every disjunct is false, i.e. s > 0 and s < c
+            lits = [nf.cmpnf(d_, negate=True) if isinstance(d_, vg.S) else None for d_ in cond.args]
+            lower, upper, other = [], [], []
+            for l_ in lits:
+                if l_ is None:
+                    other.append(l_)
+                    continue
+                P_, op_ = l_
+                ats = P_.atoms()
+                if len(ats) == 1 and nf.strip(ats[0], True).op == "param" and nf.strip(ats[0], True).args[0] in used:
+                    if op_ == ">0" and P_ == nf.Poly.atom(ats[0]):
+                        lower.append(l_)
+                    elif op_ in (">0", ">=0") and (P_ + nf.Poly.atom(ats[0])).atoms() == [] and (P_ + nf.Poly.atom(ats[0])).const_term() >= 1:
+                        upper.append(l_)          # c - s > 0 with c >= 1: the setting's documented upper end (keep everything = no filter)
+                    else:
+                        other.append(l_)
+                else:
+                    other.append(l_)
+            okc = len(lower) == 1 and not other
+            whyc = f"helper guard: enabled iff {[(l_[0].show(2), l_[1]) for l_ in lits if l_]}: one `setting > 0` literal {len(lower) == 1}, only upper ends besides {not other}"
+        elif isinstance(cond, vg.S):
+            c_ = nf.cmpnf(cond, negate=not first)
+            if c_ is not None:
+                P_, op_ = c_
+                ats = P_.atoms()
+                single = len(ats) == 1 and nf.strip(ats[0], True).op == "param" and P_ == nf.Poly.atom(ats[0])
+                okc = single and op_ == ">0" and nf.strip(ats[0], True).args[0] in used
+                whyc = f"stage enabled iff {P_.show(2)} {op_} (expected `<setting the stage uses> > 0`; settings used by the stage: {sorted(used)})"
+        n_opt += 1
+        ctx.ob("C10.a", f"process_logits:optional-stage#{n_opt}:enabled-by-its-setting", okc, fi.loc, whyc +
+               ("" if okc else " -- the stage is skipped for settings that ask for it (or applied when switched off)"),
+               construct=f"process_logits:stage-enable:{n_opt}")
+    if L is not None and n_opt < 4:
+        raise AnalysisError(f"process_logits: {n_opt} optional stages found (4 confirmed by hand: tanh clip, mask, top-k, top-p)")
     stages = [p[0] for p in pipe if p[0] not in ("optional", "bad-skip")]
     want = ["topp", "topk", "temp", "mask", "tanh", "input"]
     ctx.ob("C10.a", "process_logits:stage-order", stages == want, fi.loc,
